@@ -454,3 +454,27 @@ package jmespath
 //@   loop 10 decreases objSize(left) - \k
 //@   loop 11 invariant [value-projection] !isNil(collected) && allJSON(collected, len(collected))
 //@   loop 11 decreases len(values) - \k
+
+// ---------------------------------------------------------------------------
+// functions.go — signatures, dispatch (C10) and handlers (C05 C06 C16; C09 per function)
+
+//@ define argsOK(a) = (forall j int :: 0 <= j && j < len(a) ==> specArgOK(a[j]))
+
+//@ func (*argSpec).typeCheck
+//@   props C05,C10
+//@   requires specArgOK(arg)
+//@   assigns \nothing
+//@   ensures {C10} [accepts-exactly-the-declared-types] (err == nil) <==> specTypeOK(a.types, 0, arg)
+//@   loop 1 invariant [continuation] 0 <= \k && \k <= len(a.types) && specTypeOK(a.types, \k, arg) == specTypeOK(a.types, 0, arg)
+//@   loop 1 decreases len(a.types) - \k
+
+//@ func (*functionEntry).resolveArgs
+//@   props C05,C10
+//@   requires argsOK(arguments)
+//@   assigns \nothing
+//@   ensures {C10} [arity-and-types] (err == nil) <==> specArgsOK(e.arguments, arguments)
+//@   ensures [arguments-returned] err == nil ==> same(result, arguments)
+//@   loop 1 invariant [continuation] 0 <= \k && \k <= len(e.arguments) && len(e.arguments) == len(arguments) && specArgsFrom(e.arguments, arguments, \k) == specArgsFrom(e.arguments, arguments, 0)
+//@   loop 1 decreases len(e.arguments) - \k
+//@   loop 2 invariant [continuation] 0 <= \k && \k <= len(arguments) && len(e.arguments) >= 1 && specArgsFrom(e.arguments, arguments, \k) == specArgsFrom(e.arguments, arguments, 0)
+//@   loop 2 decreases len(arguments) - \k
